@@ -32,6 +32,10 @@ RULE = ('condition programs = forests of with-predicate / otherwise / |= nodes: 
         'assignments; the random forests also reuse address / data / enable wires with probability 0-0.8; '
         '(2a) programs with one predicate wire 2-4 bits wide (80/800 random + all 2-node shapes): PyrtlError '
         'exactly when a `with` on it is entered, pred_sets observed up to that point; '
+        '(2c) state-dependent right-hand sides: the rhs of a branch or the declared default IS one of the design\'s '
+        'registers -- explicit hold r.next |= r, copy of another register, wire |= register -- all combinations of '
+        'rhs kinds {Input, the target itself, another register} over 1-2 (thorough 3) exclusive branches x declared '
+        'default {none, Input, itself, other register} x 3 shapes, and 0/25/50 % of the rhs in the random forests; '
         '(2b) memory write chains: 2-4 (thorough 5) conditional writes to ONE MemBlock with address wires drawn '
         'from a pool of 3 SHARED address Inputs -- every address-wire pattern up to renaming (XY, XYY, XYX, XXYY, '
         'XYZX ...) x 4 tree shapes (flat chain, chain ending in otherwise, nested otherwise, split), plus 60 '
@@ -175,7 +179,26 @@ def wname(l):
 
 def leaf_src(case, i):
     lf = case['leaves'][i]
+    if lf['kind'] == 'reg':
+        return wname(lf['reg'])       # the Register object itself: `r0.next |= r0` (hold), `w0 |= r1`, ...
     return str(lf['val']) if lf['kind'] == 'int' else 'x%d' % i
+
+
+def add_reg_leaf(case, reg):
+    """a right-hand side / declared default that IS one of the design's registers (state-dependent rhs)"""
+    for i, lf in enumerate(case['leaves']):
+        if lf['kind'] == 'reg' and lf['reg'] == reg:
+            return i
+    case['leaves'].append({'role': 'data', 'kind': 'reg', 'width': case['W'], 'reg': reg})
+    return len(case['leaves']) - 1
+
+
+def demote_dangling_reg_leaves(case):
+    """a register that is not (or no longer) a declared target cannot be referenced: use a fresh Input"""
+    for lf in case['leaves']:
+        if lf['kind'] == 'reg' and lf['reg'] not in case['targets']:
+            lf['kind'] = 'in'
+            del lf['reg']
 
 
 def emit_body(case, forest, ind, lines):
@@ -387,6 +410,34 @@ def memchain_case(pattern, shape, dpattern=None, W=3, A=2):
     return case
 
 
+def state_rhs_case(kinds, dkind, shape, tkind='r'):
+    """one target t0 (register or wire) assigned in len(kinds) exclusive branches; the rhs of branch i is
+    kinds[i] in {'x' fresh Input, 'self' the target register itself, 'other' another register r1 of the
+    design}; declared default dkind in {None, 'x', 'self', 'other'}; r1 is driven in the same block."""
+    n = len(kinds)
+    t0, r1 = (tkind, 0), ('r', 1)
+    case = fresh_case(n + 1, 3, 2, [t0, r1])
+
+    def leaf(k):
+        if k == 'x':
+            return add_leaf(case, 'data')
+        return add_reg_leaf(case, t0 if k == 'self' else r1)
+    asg = [('asg', t0, leaf(k)) for k in kinds]
+    if shape == 'flat':
+        prog = [('with', i, [a]) for i, a in enumerate(asg)]
+    elif shape == 'flat-oth':
+        prog = [('with', i, [a]) for i, a in enumerate(asg[:-1])] + [('oth', [asg[-1]])]
+    else:  # nested
+        prog = [('with', n - 1, [asg[-1]])]
+        for i in range(n - 2, -1, -1):
+            prog = [('with', i, [asg[i]]), ('oth', prog)]
+    prog = prog + [('with', n, [('asg', r1, add_leaf(case, 'data'))])]    # r1 changes over time
+    d = None if dkind is None else [(t0, leaf(dkind))]
+    case['blocks'] = [{'defaults': d, 'prog': prog}]
+    case['origin'] = 'state-rhs'
+    return case
+
+
 def random_forest(rng, case, depth, maxdepth, cfg):
     """random body: branches and assignments at random positions"""
     items = []
@@ -405,6 +456,10 @@ def random_forest(rng, case, depth, maxdepth, cfg):
             if l[0] == 'm':
                 a = ('mem', l[1], add_leaf(case, 'addr', rng, reuse=cfg['p_share']),
                      add_leaf(case, 'data', rng, reuse=cfg['p_share'] / 2), add_leaf(case, 'en', rng, reuse=cfg['p_share']))
+            elif rng.random() < cfg.get('p_regrhs', 0.0) and any(t[0] == 'r' for t in case['targets']):
+                regs = [t for t in case['targets'] if t[0] == 'r']
+                src = l if (l[0] == 'r' and rng.random() < 0.6) else rng.choice(regs)   # explicit hold / other state
+                a = ('asg', l, add_reg_leaf(case, src))
             else:
                 ex = rng.random() >= cfg['p_mixed']
                 a = ('asg', l, add_leaf(case, 'data', rng, exact=ex, reuse=(cfg['p_share'] / 2 if ex else 0.0)))
@@ -445,7 +500,8 @@ def random_case(rng, tier, wide=False):
     targets = rng.sample(pool, nt)
     case = fresh_case(npred, W, A, targets)
     cfg = {'p_oth': rng.choice([0.15, 0.3, 0.45]), 'p_top_asg': 0.03,
-           'p_mixed': rng.choice([0.0, 0.0, 0.3]), 'p_share': rng.choice([0.0, 0.5, 0.8])}
+           'p_mixed': rng.choice([0.0, 0.0, 0.3]), 'p_share': rng.choice([0.0, 0.5, 0.8]),
+           'p_regrhs': rng.choice([0.0, 0.25, 0.5])}
     maxdepth = rng.randint(2, 4 if tier == 'quick' else 5)
     prog = random_forest(rng, case, 0, maxdepth, cfg)
     if rng.random() < 0.6:
@@ -460,6 +516,8 @@ def random_case(rng, tier, wide=False):
                     case['leaves'].append({'role': 'data', 'kind': 'int', 'width': W, 'val': rng.randrange(1 << W)})
                     case['structural'] = False
                     d.append((l, len(case['leaves']) - 1))
+                elif cfg['p_regrhs'] and rng.random() < 0.3 and any(t[0] == 'r' for t in case['targets']):
+                    d.append((l, add_reg_leaf(case, rng.choice([t for t in case['targets'] if t[0] == 'r']))))
                 else:
                     d.append((l, add_leaf(case, 'data')))
     case['blocks'] = [{'defaults': d, 'prog': prog}]
@@ -467,6 +525,7 @@ def random_case(rng, tier, wide=False):
     case['targets'] = [l for l in case['targets'] if l in asg]
     if d is not None:
         case['blocks'][0]['defaults'] = [(l, lf) for l, lf in d if l in case['targets'] or rng.random() < 0.0]
+    demote_dangling_reg_leaves(case)
     case['origin'] = 'random'
     if wide or rng.random() < 0.05:
         # one predicate wire is 2..4 bits wide; `wide` forces it to be one that some `with` uses
@@ -702,6 +761,8 @@ def make_stimulus(rng, case, rounds=2, cap=None):
         for lf in case['leaves']:
             if lf['kind'] == 'int':
                 raw.append(lf['val'])
+            elif lf['kind'] == 'reg':
+                raw.append(0)      # not an input: its value is the register's state (see eff)
             elif lf['role'] == 'data' and lf['width'] == W:
                 raw.append(perm[k % len(perm)])
                 k += 1
@@ -721,10 +782,16 @@ def make_stimulus(rng, case, rounds=2, cap=None):
     return steps, init_regs, init_mems
 
 
-def eff(case, raw):
-    """leaf values as seen by a target of width W (the |= conversion)"""
+def eff(case, raw, regvals=None):
+    """leaf values as seen by a target of width W (the |= conversion); a leaf that is a register of the
+    design has that register's CURRENT value (regvals: {('r', i): value})"""
     mask = (1 << case['W']) - 1
-    return [v & mask if lf['role'] == 'data' else v for v, lf in zip(raw, case['leaves'])]
+    out = [v & mask if lf['role'] == 'data' else v for v, lf in zip(raw, case['leaves'])]
+    if regvals is not None:
+        for i, lf in enumerate(case['leaves']):
+            if lf['kind'] == 'reg':
+                out[i] = regvals[lf['reg']]
+    return out
 
 
 def simulate(case, ns, steps, init_regs, init_mems):
@@ -758,7 +825,7 @@ def spec_run(case, steps, init_regs, init_mems, leaky=False):
     mems = {l: dict(c) for l, c in init_mems.items()}
     rows = []
     for rho, raw in steps:
-        lv = eff(case, raw)
+        lv = eff(case, raw, regs)
         row = {}
         nxt = {}
         stale = {}
@@ -1098,7 +1165,7 @@ def process_case(ctx, case, rng, jobs, seed_key=None):
             for l in case['targets']:
                 if l[0] == 'r':
                     rv[l[1]] = job['rows'][k][l]
-            csteps.append((rho, eff(case, raw), rv))
+            csteps.append((rho, eff(case, raw, {l: job['rows'][k][l] for l in case['targets'] if l[0] == 'r'}), rv))
     job['csteps'] = csteps
     job['exprs'] = ['all_case5 [%s] %s %s %s' % ('; '.join(map(str, pw_of(case))), coq_forest(b['prog']), coq_defaults(b['defaults']), coq_steps(csteps))
                     for b in case['blocks']]
@@ -1109,6 +1176,45 @@ def process_case(ctx, case, rng, jobs, seed_key=None):
             report_shrunk(ctx, case, seed_key, *job['pending_report'])
         else:
             ctx.spec_violation(*job['pending_report'])
+
+
+def ser_regs(tokens, regleaf):
+    """in a prefix-serialised vexpr replace leaf tokens [5, id] that denote a register by [6, reg index]"""
+    out = []
+    pos = [0]
+
+    def b():
+        t = tokens[pos[0]]
+        pos[0] += 1
+        out.append(t)
+        if t == 0:
+            out.append(tokens[pos[0]])
+            pos[0] += 1
+        elif t == 1:
+            b()
+        else:
+            b()
+            b()
+
+    def v():
+        t = tokens[pos[0]]
+        pos[0] += 1
+        if t == 5:
+            r = tokens[pos[0]]
+            pos[0] += 1
+            out.extend([6, regleaf[r]] if r in regleaf else [5, r])
+        elif t == 6:
+            out.extend([6, tokens[pos[0]]])
+            pos[0] += 1
+        elif t == 4:
+            out.append(4)
+        else:
+            out.append(3)
+            b()
+            v()
+            v()
+    v()
+    return out
 
 
 def classify(job, l):
@@ -1210,7 +1316,8 @@ def check_job(ctx, job, results):
                 ctx.model_mismatch('netlist of the real elaboration has an unexpected shape: %s' % job['struct_error'], rep)
                 ctx.count('structural_tie', 'unexpected-shape')
             elif 'struct' in job:
-                want = {tuple(r[0]): r[1:] for r in struct}
+                regleaf = {i: lf['reg'][1] for i, lf in enumerate(case['leaves']) if lf['kind'] == 'reg'}
+                want = {tuple(r[0]): [ser_regs(e, regleaf) for e in r[1:]] for r in struct}
                 same = all(want.get(tuple(lhs_code(l))) == job['struct'][l] for l in asg)
                 ctx.count('structural_tie', 'identical' if same else 'DIFFERENT')
                 if not same:
@@ -1313,6 +1420,17 @@ def gen_cases(ctx):
             c['pwidths'] = [1, pw]
             c['origin'] = 'enum2-wide-predicate'
             yield c
+    # (2c) right-hand sides / declared defaults that are the design's own registers: explicit holds
+    # (r0.next |= r0), copies of another register, with and without a declared default; all combinations
+    for tkind in ('r', 'w'):
+        rk = ['x', 'self', 'other'] if tkind == 'r' else ['x', 'other']
+        for n in (1, 2) if quick else (1, 2, 3):
+            for kinds in itertools.product(rk, repeat=n):
+                if all(k == 'x' for k in kinds):
+                    continue
+                for dkind in [None] + rk:
+                    for shape in (('flat',) if n == 1 else ('flat', 'flat-oth', 'nested')):
+                        yield state_rhs_case(kinds, dkind, shape, tkind)
     # (2b) memory write chains: 2..4 (thorough 5) conditional writes to one MemBlock, ALL patterns of
     # address wires over a pool of 3 shared address Inputs (X,Y / X,Y,Y / X,Y,X / X,X,Y,Y ...), 4 shapes
     nmem = 4 if quick else 5
